@@ -1480,8 +1480,15 @@ fn main() {
     // families run in parallel threads (each execution owns its nodes and runtimes), so each gets
     // the whole time budget; the machine-wide execution ceiling still applies
     let par = fams.len().min(6) as u64;
-    let per_script_execs: u64 = cli.tier.pick(2400, 60_000) * par / fams.len() as u64;
-    let per_script_secs: u64 = cli.tier.pick(50, 1500) * par / fams.len() as u64;
+    // quick tier: bounded by executions per script family (deterministic work), the wall-clock cap is
+    // only a safety net several times larger than the idle run time
+    let quick_execs: u64 = match prop {
+        "C01" => 450,
+        "C06" => 70,
+        _ => 2400,
+    };
+    let per_script_execs: u64 = cli.tier.pick(quick_execs, 60_000 * par / fams.len() as u64);
+    let per_script_secs: u64 = cli.tier.pick(240, 1500 * par / fams.len() as u64);
     let mut fam_stats = vec![];
     let mut all_exhaustive = true;
     let tier = cli.tier;
